@@ -139,6 +139,10 @@ type FOScenario struct {
 	// (fmt.Errorf("...: %w")), as instrumenting / tracing wrappers do; expired items stay reachable through
 	// errors.As only.
 	WrapBackendErrs bool `json:"wrap_backend_errs,omitempty"`
+	// PlainExpired: the backend handed to the library reports expired entries with the bare ErrExpired
+	// sentinel, without the expired item ("may implement ErrWithExpiredItem to enable stale value serving":
+	// this one does not). For the frontend such an entry is as good as absent.
+	PlainExpired bool `json:"plain_expired,omitempty"`
 	// ValRep: representation of values handed to the untyped API ("" token struct, slice, map, box, ptr).
 	ValRep       string   `json:"val_rep,omitempty"`
 	Backend      string   `json:"backend"` // sharded | syncmap | shardedOf
@@ -535,6 +539,10 @@ func (w beWrap) Read(ctx context.Context, k []byte) (interface{}, error) {
 		return raw, nil // the library gets the stored representation (possibly nil), the call log the token
 	}
 
+	if w.r.sc.PlainExpired && errors.Is(err, cache.ErrExpired) {
+		v, err = nil, cache.ErrExpired
+	}
+
 	if err != nil && w.r.sc.WrapBackendErrs {
 		err = fmt.Errorf("decorated backend: %w", err)
 	}
@@ -558,6 +566,10 @@ func (w beWrapOf) Read(ctx context.Context, k []byte) (Tok, error) {
 		return t, err
 	})
 	if err != nil {
+		if w.r.sc.PlainExpired && errors.Is(err, cache.ErrExpired) {
+			err = cache.ErrExpired
+		}
+
 		if w.r.sc.WrapBackendErrs {
 			err = fmt.Errorf("decorated backend: %w", err)
 		}
